@@ -228,7 +228,7 @@ func (p *idp) token(w http.ResponseWriter, r *http.Request, idpID string) {
 		}
 	case mode == "lenient":
 		issue = true
-	case mode == "fail-before":
+	case mode == "fail-before" || mode == "drop":
 		status, body = 500, []byte(`{"error":"server_error"}`)
 	case mode == "fail-after":
 		issue = reqOK
@@ -268,7 +268,16 @@ func (p *idp) token(w http.ResponseWriter, r *http.Request, idpID string) {
 	ev["issued"] = issued
 	d.rec.emit(ev)
 
-	if mode == "fail-after" || mode == "fail-before" {
+	if mode == "drop" {
+		// transport-level failure: the connection is closed without an answer
+		if hj, ok := w.(http.Hijacker); ok {
+			if conn, _, err := hj.Hijack(); err == nil {
+				_ = conn.Close()
+				return
+			}
+		}
+	}
+	if mode == "fail-after" || mode == "fail-before" || mode == "drop" {
 		w.WriteHeader(status)
 		_, _ = w.Write([]byte(`{"error":"server_error"}`))
 		return
